@@ -50,10 +50,16 @@ k_local, workdir = int(sys.argv[1]), sys.argv[2]
 payload = base64.b64decode(sys.stdin.read())
 spec = cubed.Spec(work_dir=workdir, allowed_mem="200MB")
 base = np.arange(1.0, 5.0)
+compute_local = len(sys.argv) > 3 and sys.argv[3] == "1"
 for _ in range(k_local):
-    xp.asarray(np.zeros((2,)), chunks=(2,), spec=spec)
+    z = xp.asarray(np.zeros((2,)), chunks=(2,), spec=spec)
+    if compute_local:
+        (z + 1).compute()        # the receiver has already planned and run computations of its own
 b = cloudpickle.loads(payload)
-out = {"alone": np.asarray(b.compute()).tolist(), "combos": {}}
+try:
+    out = {"alone": np.asarray(b.compute()).tolist(), "combos": {}}
+except Exception as e:
+    out = {"alone": "EXC " + type(e).__name__ + ": " + str(e)[:100], "combos": {}}
 c = xp.asarray(base * 10, chunks=(2,), spec=spec)
 d = xp.negative(c)
 def enc(n):
@@ -120,30 +126,47 @@ def run(ctx):
             kind = ctx.rng.choice(list(EXPECT))
             k_remote = ctx.rng.choice([0, 0, 1, 3, 7])
             k_local = ctx.rng.choice([0, 0, 1, 2, 5])
+            compute_local = ctx.rng.random() < 0.5
             where = ctx.rng.choice(["fresh-process", "fresh-process", "fresh-process", "same-process"])
-            desc = {"expr": kind, "where": where, "sender_created_before": k_remote, "receiver_created_before": k_local}
+            if compute_local and where != "same-process":
+                k_local = max(k_local, 3)        # the receiver has planned and run several computations of its own
+            desc = {"expr": kind, "where": where, "sender_created_before": k_remote, "receiver_created_before": k_local,
+                    "receiver_computed_before": compute_local}
             want_b = EXPECT[kind](base)
             expected = {"remote+local": want_b + (-base * 10), "local+remote": (-base * 10) + want_b, "remote*remote": want_b * want_b,
                         "local-derived-from-remote": -want_b + base * 10}
             if where == "same-process":
                 # serialise and deserialise inside this process
+                # a Spec of its own per case: the array is serialized before anything was computed under it, the process then
+                # (sometimes) computes another array of the same Spec, and only then deserializes
+                spec = cubed.Spec(work_dir=os.path.join(tmp, "w"), allowed_mem="200MB")
                 a0 = xp.asarray(base, chunks=(2,), spec=spec)
                 b0 = {"neg": lambda: xp.negative(a0), "chain": lambda: xp.negative(a0) * 3 + 1,
                       "sum": lambda: xp.sum(a0 * 2, keepdims=True) + xp.zeros((4,), chunks=(2,), spec=spec), "twice": lambda: a0 + a0}[kind]()
-                b = cloudpickle.loads(cloudpickle.dumps(b0))
+                payload = cloudpickle.dumps(b0)
                 ctx.evaluations += 1
                 c = xp.asarray(base * 10, chunks=(2,), spec=spec)
                 d = xp.negative(c)
-                res = {"alone": np.asarray(b.compute()), "combos": {"remote+local": np.asarray((b + d).compute()), "local+remote": np.asarray((d + b).compute()),
-                                                                      "remote*remote": np.asarray((b * b).compute()),
-                                                                      "local-derived-from-remote": np.asarray((xp.negative(b) + c).compute())}}
+                if compute_local:
+                    d.compute()
+                b = cloudpickle.loads(payload)
+                def attempt(f):
+                    try:
+                        return np.asarray(f().compute())
+                    except Exception as e:
+                        return "EXC " + type(e).__name__ + ": " + str(e)[:100]
+                # the combinations come first: an array deserialized before anything was computed under its Spec must still
+                # combine with local arrays of the same Spec afterwards
+                combos = {"remote+local": attempt(lambda: b + d), "local+remote": attempt(lambda: d + b), "remote*remote": attempt(lambda: b * b),
+                          "local-derived-from-remote": attempt(lambda: xp.negative(b) + c)}
+                res = {"alone": attempt(lambda: b), "combos": combos}
                 collide, shared, model = [], [], None
             else:
                 o1 = subprocess.run(["/venv/bin/python", child_py, str(k_remote), kind, os.path.join(tmp, "w")], capture_output=True, env=env)
                 if o1.returncode != 0:
                     ctx.fail("child-failed", o1.stderr.decode()[-300:], desc)
                     continue
-                o2 = subprocess.run(["/venv/bin/python", recv_py, str(k_local), os.path.join(tmp, "w")], input=base64.b64encode(o1.stdout),
+                o2 = subprocess.run(["/venv/bin/python", recv_py, str(k_local), os.path.join(tmp, "w"), "1" if compute_local else "0"], input=base64.b64encode(o1.stdout),
                                     capture_output=True, env=env)
                 if o2.returncode != 0:
                     ctx.fail("receiver-failed", o2.stderr.decode()[-400:], desc)
@@ -152,8 +175,8 @@ def run(ctx):
                 collide, shared = res["collide"], res["shared"]
                 model = res
             ctx.evaluations += 1
-            if not np.array_equal(np.asarray(res["alone"]), want_b):
-                ctx.fail("roundtrip-changes-value", f"deserialized array ({where}) computes to {res['alone']}, expected {want_b.tolist()}", desc)
+            if isinstance(res["alone"], str) or not np.array_equal(np.asarray(res["alone"]), want_b):
+                ctx.fail("roundtrip-changes-value", f"deserialized array ({where}) computed on its own gives {res['alone']}, expected {want_b.tolist()}", desc)
             for cname, want in expected.items():
                 got = res["combos"][cname]
                 cd = {**desc, "combination": cname}
